@@ -291,11 +291,11 @@ func oracleC02(x *Exec, r *StepRec) {
 					}
 					exp[hx(c.Consumer)] -= fee
 					exp[hx(requestAcc)] += fee
-					resp, answered := post.Resp[rid]
+					_, answered := post.Resp[rid]
 					switch {
 					case !answered:
 						// (not answered inside the step: stays pending like an ordinary request)
-					case outputKind(resp.Output) == "malformed":
+					case servedOutputKind(r, rid) == "malformed":
 						exp[hx(c.Consumer)] += fee
 						exp[hx(requestAcc)] -= fee
 					default:
@@ -399,7 +399,7 @@ func expectedFailures(x *Exec, r *StepRec) map[string]int {
 				continue
 			}
 			q := r.Post.Req[rid]
-			if resp, ok := r.Post.Resp[rid]; ok && outputKind(resp.Output) == "malformed" {
+			if _, ok := r.Post.Resp[rid]; ok && servedOutputKind(r, rid) == "malformed" {
 				if c, ok := r.Post.Ctx[hx(q.RequestContextId)]; ok {
 					f[bkey(c.ServiceName, q.Provider)]++
 				}
